@@ -115,12 +115,16 @@ def check_params_cases(ctx):
     dis, lines, got = [], [], []
     rng = random.Random(ctx.seed * 3 + 1)
     cases = [[32], [32, 32, 32], [32, 64], [64, 64, 32], [8, 8], [128, 128, 128, 128], [16, 32, 16]]
-    cases += [[rng.choice((8, 16, 32, 64)) for _ in range(rng.randrange(1, 5))] for _ in range(12)]
+    cases += [[rng.choice((8, 16, 32, 64)) for _ in range(rng.randrange(1, 5))] for _ in range(5 if ctx.tier == "quick" else 40)]
     for mod, mk in ((axi_lite, lambda w: axi_lite.AXILiteInterface(data_width=w, address_width=32)),
                     (axi_full, lambda w: axi_full.AXIInterface(data_width=w, address_width=32))):
+        pool = {}           # one interface object per width (the function only reads `.data_width`)
         for ws in cases:
             try:
-                r = "ok %d" % mod.get_check_parameters([mk(w) for w in ws])
+                for w in ws:
+                    if w not in pool:
+                        pool[w] = mk(w)
+                r = "ok %d" % mod.get_check_parameters([pool[w] for w in ws])
             except AssertionError:
                 r = "rej"
             lines.append("checkparams " + " ".join(map(str, ws)))
